@@ -1738,17 +1738,18 @@ def _replay_literals(ctx, doc, seed, rng, num, imv, tamper):
 
 
 def literal_observations(ctx):
-    """Inputs left out of the judged universe because the unchanged code fails on them: recorded, never judged."""
+    """Signed zero real part of a purely imaginary literal (was a defect of the pinned tree, fixed)."""
     def signed_zero():
         a, b = UC.ComplexValue(complex(0.0, -2.0)), UC.ComplexValue(complex(-0.0, -2.0))
         c = eval(repr(a), dict(_ns()))  # noqa: S307
         return eqv(a, b) is True and repr(a) != repr(b), eqv(a, c) is True and repr(a) != repr(c)
 
     r = _try(signed_zero)
+    ctx.evaluated(2)
     if isinstance(r, tuple) and r[0]:
-        ctx.count("unjudged_observation:ComplexValue(0-2j)==ComplexValue(-0-2j)-but-repr-and-hash-differ")
+        ctx.violation("C13:literal-equal-but-differ:ComplexValue:signed-zero:repr", "ComplexValue(0-2j) == ComplexValue(-0-2j) but repr and hash differ", {"kind": "signed-zero"})
     if isinstance(r, tuple) and r[1]:
-        ctx.count("unjudged_observation:eval(repr(ComplexValue(-2j)))-is-equal-but-has-another-repr-and-hash")
+        ctx.violation("C13:evalrepr:ComplexValue:signed-zero", "eval(repr(ComplexValue(-2j))) is equal to the original but has another repr and hash", {"kind": "signed-zero"})
 
 
 def _spread(docs, limit):
@@ -2205,6 +2206,8 @@ def replay(ctx, doc):
                        kinds=(r["trip"],))
     elif kind == "literal":
         replay_literals(ctx, r["doc"], r["seed"])
+    elif kind == "signed-zero":
+        literal_observations(ctx)
     elif kind in ("corpus", "corpus-pair"):
         corpus_laws(ctx, build_corpus())
     else:
